@@ -597,34 +597,81 @@ def weave_extract(ub, ex, rf, repo_root):
                 new = '%s -> (b: %s) ensures b == (%s) { %s }' % (newp, ret, body, body)
             edits.append(Edit(pos, e, new, None))
             rec['transformations'].append({'rule': 'E6', 'what': 'closure %s -> %s with ensures = its own body' % (anchor, newp)})
-        elif name == 'insert':
+        elif name in ('insert', 'insert-each'):
             n, rest = parse_occ(args)
             mode = rest[0]
+            positions = []
             if mode == 'body-start':
-                pos = body_open + 1
+                positions = [body_open + 1]
             elif mode == 'body-end':
-                pos = match_close(m, body_open)
+                positions = [match_close(m, body_open)]
             else:
                 anchor = rest[1]
                 hay = m if not ('"' in anchor) else code
-                p = nth_occurrence(hay, anchor, n, '%s insert anchor' % alias)
-                if mode == 'before-text':
-                    pos = p
-                elif mode == 'after-text':
-                    pos = p + len(anchor)
-                elif mode == 'after-stmt':
-                    pos = stmt_end(m, p + len(anchor), alias, anchor)
-                elif mode == 'before-stmt':
-                    pos = stmt_start(m, p, alias, anchor)
+                occs = []
+                if name == 'insert-each':
+                    st = 0
+                    while True:
+                        p0 = hay.find(anchor, st)
+                        if p0 < 0:
+                            break
+                        # skip matches inside comments
+                        if m[p0] == code[p0] or code[p0].isspace():
+                            occs.append(p0)
+                        st = p0 + 1
+                    if not occs:
+                        raise WeaveError('lost anchor: %s insert-each anchor %r' % (alias, anchor))
                 else:
-                    raise WeaveError('unknown insert mode %s' % mode)
+                    occs = [nth_occurrence(hay, anchor, n, '%s insert anchor' % alias)]
+                if 'unless' in rest:
+                    ex_txt = rest[rest.index('unless') + 1]
+                    keep = []
+                    for p in occs:
+                        a0 = stmt_start(m, p, alias, anchor)
+                        b0 = (p + len(anchor)) if anchor.endswith(';') else stmt_end(m, p + len(anchor), alias, anchor)
+                        if ex_txt not in code[a0:b0]:
+                            keep.append(p)
+                    occs = keep
+                if 'when-try' in rest:
+                    # only statements that can exit through a `?` applied at the statement's own level
+                    keep = []
+                    for p in occs:
+                        a0 = stmt_start(m, p, alias, anchor)
+                        b0 = (p + len(anchor)) if anchor.endswith(';') else stmt_end(m, p + len(anchor), alias, anchor)
+                        depth = 0
+                        has = False
+                        for ch in m[a0:b0]:
+                            if ch == '{':
+                                depth += 1
+                            elif ch == '}':
+                                depth -= 1
+                            elif ch == '?' and depth == 0:
+                                has = True
+                        if has:
+                            keep.append(p)
+                    occs = keep
+                for p in occs:
+                    if mode == 'before-text':
+                        positions.append(p)
+                    elif mode == 'after-text':
+                        positions.append(p + len(anchor))
+                    elif mode == 'after-stmt':
+                        positions.append(stmt_end(m, p + len(anchor) - 1 if anchor.endswith(';') else p + len(anchor), alias, anchor))
+                    elif mode == 'before-stmt':
+                        positions.append(stmt_start(m, p, alias, anchor))
+                    else:
+                        raise WeaveError('unknown insert mode %s' % mode)
             text = '\n'.join(payload)
-            # asserts inside ghost code are obligations too
-            spans, clauses = ghost_asserts(text, owner, props, len([t for t in rec['transformations'] if t['rule'] == 'E7']) + 1)
-            ub.clauses.extend(clauses)
-            rec['clauses'].extend(c.id for c in clauses)
-            edits.append(Edit(pos, pos, '\n' + text + '\n', ('clauses', [(a + 0, b + 0, c) for a, b, c in spans])))
-            rec['transformations'].append({'rule': 'E7', 'what': 'ghost code %s %r' % (mode, rest[1] if len(rest) > 1 else '')})
+            blockno = len([t for t in rec['transformations'] if t['rule'] == 'E7']) + 1
+            for k, pos in enumerate(positions):
+                spans, clauses = ghost_asserts(text, owner, props, blockno)
+                if len(positions) > 1:
+                    for c in clauses:
+                        c.id = '%s@%d' % (c.id, k + 1)
+                ub.clauses.extend(clauses)
+                rec['clauses'].extend(c.id for c in clauses)
+                edits.append(Edit(pos, pos, '\n' + text + '\n', ('clauses', [(a + 0, b + 0, c) for a, b, c in spans])))
+            rec['transformations'].append({'rule': 'E7', 'what': 'ghost code %s %r (%d site(s))' % (mode, rest[1] if len(rest) > 1 else '', len(positions))})
         elif name == 'cut':
             # E8: one loop statement replaced by a call to a prelude stub with an assumed contract
             n, rest = parse_occ(args)
@@ -676,7 +723,7 @@ def weave_extract(ub, ex, rf, repo_root):
       except WeaveError as e:
         # DESIGN section 8: an anchor lost because code was only DELETED (current token sequence is a subsequence of the
         # pinned one) does not stop the check: the annotation is dropped and verification is attempted with the rest
-        if deletion_only and str(e).startswith('lost anchor') and d[0] in ('insert', 'loop', 'closure', 'cut', 'rewrite'):
+        if deletion_only and str(e).startswith('lost anchor') and d[0] in ('insert', 'insert-each', 'loop', 'closure', 'cut', 'rewrite'):
             rec['lost_anchors'].append('%s: %s' % (d[0], e))
             continue
         raise
@@ -880,6 +927,35 @@ def find_arrow(hdr_m):
 
 
 def stmt_end(m, pos, alias, anchor):
+    # block-like statement (if / if let / match / for / while / loop): ends at its closing brace (after else chains)
+    try:
+        st = stmt_start(m, pos - 1, alias, anchor)
+        while st < len(m) and m[st].isspace():
+            st += 1
+        mm = re.match(r'(if|match|for|while|loop)\b', m[st:st + 6])
+        is_let = re.match(r'let\b', m[st:st + 4])
+    except WeaveError:
+        mm = None
+        st = pos
+    if mm:
+        k = st
+        n = len(m)
+        while k < n:
+            c = m[k]
+            if c in '([':
+                k = match_close(m, k) + 1
+                continue
+            if c == '{':
+                k = match_close(m, k) + 1
+                t = k
+                while t < n and m[t].isspace():
+                    t += 1
+                if m.startswith('else', t):
+                    k = t + 4
+                    continue
+                return k
+            k += 1
+        raise WeaveError('lost anchor: block statement end after %r in %s' % (anchor, alias))
     k = pos
     n = len(m)
     while k < n:
